@@ -138,3 +138,63 @@ def ok_err_assignments(body):
         if t["k"] == "call" and t["dest"]["l"] == 0 and not t["dest"]["p"]:
             out.append((i, "call:" + (callee(t) or "?"), t))
     return out
+
+
+def chains(body, operand, arg=0, depth=0, _acc=None):
+    """Follow every root of `operand`; for `call` roots continue into argument `arg` of that call.
+    -> list of (tuple_of_callee_names_passed, terminal_root) -- one per root path."""
+    out = []
+    acc = _acc or ()
+    for r in prov(body, operand):
+        if r.kind == "call" and r.site is not None and depth < 12:
+            t = body.term(r.site)
+            if len(t["args"]) > arg:
+                sub = chains(body, t["args"][arg], arg, depth + 1, acc + (r.name,))
+                if sub:
+                    out.extend(sub)
+                    continue
+            out.append((acc + (r.name,), r))
+        else:
+            out.append((acc, r))
+    return out
+
+
+def chain_ok(body, operand, terminal, allowed=None, required=(), forbidden=()):
+    """every root path of operand ends in a root satisfying `terminal`, passes only callees whose
+    short name is in `allowed` (if given), passes every name in `required`, none in `forbidden`"""
+    cs = chains(body, operand)
+    if not cs:
+        return False
+    for names, root in cs:
+        shorts = [n.rsplit("::", 1)[-1] for n in names]
+        if not terminal(root):
+            return False
+        if allowed is not None and any(s not in allowed for s in shorts):
+            return False
+        if any(r not in shorts for r in required):
+            return False
+        if any(f in shorts for f in forbidden):
+            return False
+    return True
+
+
+def switch_edges(body):
+    """[(switch_bb, target_bb, kind, subject, labels)] for every live switch edge"""
+    out = []
+    for s in sorted(body.live_blocks()):
+        ds = mir.describe_switch(body, s)
+        if not ds:
+            continue
+        kind, subject, labels = ds
+        for tb, labs in labels.items():
+            out.append((s, tb, kind, subject, tuple(labs)))
+    return out
+
+
+def must_pass_any_edge(body, site, edges):
+    """every normal path entry -> site uses at least one of the (s, t) edges"""
+    if site not in body.live_blocks():
+        return False
+    if not edges:
+        return False
+    return site not in body.reach_from(0, without_edges=tuple(sorted(set(edges))))
